@@ -1,9 +1,13 @@
 import Driver.Arith
-/-! Line-protocol driver: one request per line on stdin, one reply per line on stdout. -/
+/-! Line-protocol driver: one request per line on stdin, one reply per line on stdout.
+Stateless components are dispatched on the first token. A stateful component `X` adds a field
+`x : Driver.X.St := Driver.X.St.init` to `DState`, resets it on `begin x …` and threads it through
+`Driver.X.handle`. -/
 open Driver
 
 structure DState where
-  dummy : Unit := ()
+  unit : Unit := ()
+  -- stateful component states go here
 
 def step (st : DState) (line : String) : DState × String :=
   match line.trimAscii.toString.splitOn " " with
